@@ -27,6 +27,8 @@ def replay(case):
     cfg, isl = case['cfg'], case['isl']
     if cfg.get('weak'):
         return replay_weak(ode, TT, cfg, isl)
+    if cfg.get('hop'):
+        return replay_hop(ode, TT, cfg, isl, case['maxranks'])
     dims = list(cfg['dims'])
     d = len(dims)
     N = int(np.prod(dims))
@@ -167,6 +169,47 @@ def replay(case):
     why = value_changed(snaps)
     if why:
         out.append(('operand_changed', 'the operator or the initial state was modified (%s)' % why))
+    return out
+
+
+def replay_hop(ode, TT, cfg, isl, maxranks):
+    """hopping chain, basis state |0..010..0> stored with maximal ranks (zero padding, right-orthonormalised by the library):
+    at maximal ranks one- and two-site TDVP are exact, whatever weight the bond directions carry"""
+    dims = list(cfg['dims'])
+    d = len(dims)
+    N = int(np.prod(dims))
+    H = TT(core_arrays(isl['H']))
+    Hd = contract(H.cores).reshape(N, N)
+    if np.max(np.abs(Hd - Hd.conj().T)) > 0:
+        raise RuntimeError('hopping chain of the specification is not Hermitian')
+    rk = list(maxranks)
+    cores = []
+    for k in range(d):
+        c = np.zeros((rk[k], 2, 1, rk[k + 1]))
+        c[0, 1 if k == cfg['site'] - 1 else 0, 0, 0] = 1.0
+        cores.append(c)
+    x0 = TT(cores).ortho_right()
+    x0d = vec(x0)
+    if abs(np.linalg.norm(x0d) - 1) > 1e-12 or list(x0.ranks) != rk:
+        return []        # the preparation did not keep the padded representation: scenario not applicable
+    h = 2.0 ** (-cfg['e'])
+    n = cfg['steps']
+    U = sl.expm(-1j * h * Hd)
+    out = []
+    for name, f in (('tdvp1site', lambda: ode.tdvp1site(H, x0, h, n)),
+                    ('tdvp2site', lambda: ode.tdvp2site(H, x0, h, n, threshold=0, max_rank=64))):
+        try:
+            sol = f()
+            want = x0d.astype(complex)
+            for k in range(1, n + 1):
+                want = U @ want
+                err = np.linalg.norm(vec(sol[k]) - want)
+                if err > 1e-9:
+                    out.append(('%s:exact:padded' % name, 'maximal ranks, basis state with zero-padded bonds, hopping chain of %d sites: state %d '
+                                'differs from exp(-i k h H) x0 by %.3e (ranks %r -> %r)' % (d, k, err, x0.ranks, sol[k].ranks)))
+                    break
+        except Exception as e:
+            out.append(('%s:padded:exception:%s' % (name, type(e).__name__), repr(e)))
     return out
 
 
